@@ -132,9 +132,9 @@ def thread_maildir(workdir, own):
     md = getattr(_tls, key, None)
     if md is None:
         md = os.path.join(workdir, "%s-%d" % (key, threading.get_ident()))
-        os.mkdir(md)
-        for d in ("new", "cur", "tmp"):
-            os.mkdir(os.path.join(md, d))
+        # the ident of a finished thread may be reused: the directory may exist already
+        for d in ("", "new", "cur", "tmp"):
+            os.makedirs(os.path.join(md, d), exist_ok=True)
         if own:
             for d in ("", "new", "cur", "tmp"):
                 os.chown(os.path.join(md, d), UID, UID)
